@@ -189,9 +189,7 @@ func (g *gen) powArgs() []jarg {
 	r := g.r
 	switch r.Intn(6) {
 	case 0, 1: // table cells
-		xs := []float64{1, -1, 0, math.Copysign(0, -1), math.Inf(1), math.Inf(-1), math.NaN(), 0.5, -0.5, 2, -2, 1.5, -1.5, fb(0x3FEFFFFFFFFFFFFF), fb(0x3FF0000000000001), -fb(0x3FEFFFFFFFFFFFFF), -fb(0x3FF0000000000001), 1e300, -1e300, 5e-324, -5e-324}
-		ys := []float64{math.NaN(), 0, math.Copysign(0, -1), math.Inf(1), math.Inf(-1), 1, -1, 2, -2, 3, -3, 0.5, -0.5, 1.5, -1.5, two53 - 1, -(two53 - 1), two53, -two53, two53 + 2, 1e300, -1e300, 5e-324, -5e-324, two52 + 1, two52 + 0.5, 1e-300}
-		return []jarg{numArg(Pick(r, xs)), numArg(Pick(r, ys))}
+		return []jarg{numArg(Pick(r, powXs)), numArg(Pick(r, powYs))}
 	case 2, 3: // exact rational powers
 		x := float64(r.Intn(65)-32) / float64(int(1)<<uint(r.Intn(5)))
 		if r.Intn(4) == 0 {
@@ -211,8 +209,7 @@ func (g *gen) atan2Args() []jarg {
 	r := g.r
 	switch r.Intn(4) {
 	case 0:
-		vs := []float64{math.NaN(), 0, math.Copysign(0, -1), math.Inf(1), math.Inf(-1), 1, -1, 5e-324, -5e-324, 1e300, -1e300, 1e-300, -1e-300, math.MaxFloat64, -math.MaxFloat64}
-		return []jarg{numArg(Pick(r, vs)), numArg(Pick(r, vs))}
+		return []jarg{numArg(Pick(r, atan2Vs)), numArg(Pick(r, atan2Vs))}
 	case 1: // quotients near the underflow threshold 2^-1075
 		ey := r.Intn(400) - 1074
 		ex := ey + 1075 + r.Intn(7) - 3
@@ -348,7 +345,7 @@ func (g *gen) relCase() {
 		x = -x
 	}
 	args := []float64{x}
-	src := strings.ReplaceAll(d.expr, "x", "("+JSNum(x)+")")
+	src := ""
 	if d.hi == 0 {
 		src = d.expr
 	} else {
@@ -720,12 +717,130 @@ func (g *gen) pinned() {
 	}
 }
 
+var powXs = []float64{1, -1, 0, math.Copysign(0, -1), math.Inf(1), math.Inf(-1), math.NaN(), 0.5, -0.5, 2, -2, 1.5, -1.5, fb(0x3FEFFFFFFFFFFFFF), fb(0x3FF0000000000001), -fb(0x3FEFFFFFFFFFFFFF), -fb(0x3FF0000000000001), 1e300, -1e300, 5e-324, -5e-324, 3, -3}
+var powYs = []float64{math.NaN(), 0, math.Copysign(0, -1), math.Inf(1), math.Inf(-1), 1, -1, 2, -2, 3, -3, 0.5, -0.5, 1.5, -1.5, two53 - 1, -(two53 - 1), two53, -two53, two53 + 2, 1e300, -1e300, 5e-324, -5e-324, two52 + 1, two52 + 0.5, 1e-300, 1075, -1075, 1074, -1074}
+var atan2Vs = []float64{math.NaN(), 0, math.Copysign(0, -1), math.Inf(1), math.Inf(-1), 1, -1, 5e-324, -5e-324, 1e300, -1e300, 1e-300, -1e-300, math.MaxFloat64, -math.MaxFloat64}
+var unaryVs = []float64{math.NaN(), 0, math.Copysign(0, -1), math.Inf(1), math.Inf(-1), 1, -1, fb(0x3FEFFFFFFFFFFFFF), fb(0x3FF0000000000001), -fb(0x3FEFFFFFFFFFFFFF), -fb(0x3FF0000000000001),
+	0.5, -0.5, 2, -2, 0.25, -0.75, 5e-324, -5e-324, math.MaxFloat64, -math.MaxFloat64, 1e-300, 1e300, -1e300, 1.5, -1.5, 2.5, -2.5, 710, -746, math.Pi, -math.Pi / 2, 3, -3}
+var roundVs = []float64{0.5, -0.5, 1.5, -1.5, 2.5, -2.5, 3.5, -3.5, 0.49999999999999994, -0.49999999999999994, 0.5000000000000001, -0.5000000000000001, 0.2, -0.2, 0.7, -0.7, 1.4999999999999998, -1.4999999999999998,
+	two52 - 0.5, -(two52 - 0.5), two52 - 1.5, two52, -two52, two52 + 1, -(two52 + 1), two52 + 2, -(two52 + 2), two52 + 3, two53 - 1, -(two53 - 1), two53 - 2, two53, -two53, two53 + 2, -(two53 + 2),
+	two52/2 + 0.5, -(two52/2 + 0.5), two52/2 + 0.25, two52/2 - 0.25, two52/4 + 0.5, two52/4 + 0.375, 1e15 + 0.5, -(1e15 + 0.5), 1e300, -1e300, 5e-324, -5e-324, 2147483647.5, -2147483648.5, 4294967295.5}
+var zeroVs = []float64{0, math.Copysign(0, -1), math.NaN(), 5e-324, -5e-324, math.Inf(1), math.Inf(-1), 1, -1}
+
+// deterministic sweeps of every special-value table cell, on every run
+func (g *gen) sweeps() {
+	for _, x := range powXs {
+		for _, y := range powYs {
+			g.mathCase(12, []jarg{numArg(x), numArg(y)})
+		}
+	}
+	for _, y := range atan2Vs {
+		for _, x := range atan2Vs {
+			g.mathCase(4, []jarg{numArg(y), numArg(x)})
+		}
+	}
+	for _, fn := range []int{0, 1, 2, 3, 5, 6, 7, 8, 9, 13, 14, 15, 16, 20, 21, 22, 23, 24, 25, 26, 27, 28, 29, 30, 31} {
+		for _, x := range unaryVs {
+			g.mathCase(fn, []jarg{numArg(x)})
+		}
+		g.mathCase(fn, nil)
+	}
+	for _, fn := range []int{13, 5, 8, 31} {
+		for _, x := range roundVs {
+			g.mathCase(fn, []jarg{numArg(x)})
+		}
+	}
+	for _, fn := range []int{10, 11} {
+		for _, a := range zeroVs {
+			g.mathCase(fn, []jarg{numArg(a)})
+			for _, b := range zeroVs {
+				g.mathCase(fn, []jarg{numArg(a), numArg(b)})
+				g.mathCase(fn, []jarg{numArg(a), numArg(b), numArg(math.Copysign(0, -1))})
+				g.mathCase(fn, []jarg{numArg(2), numArg(a), numArg(b)})
+			}
+		}
+	}
+	for _, w := range []int{0, 1} {
+		for _, a := range []jarg{numArg(math.NaN()), numArg(math.Inf(1)), numArg(math.Inf(-1)), numArg(0), numArg(math.MaxFloat64), {"undefined", "JUndef", true}, {"null", "JNull", true}, {"true", "(JBool true)", true}, {"\"\"", "(JStr [])", true}, {"\"Infinity\"", "(JStr " + Cstr("Infinity") + ")", true}, {"\"-Infinity\"", "(JStr " + Cstr("-Infinity") + ")", true}, {"\"x\"", "(JStr " + Cstr("x") + ")", true}, {"\" 1 \"", "(JStr " + Cstr(" 1 ") + ")", true}} {
+			name := []string{"isNaN", "isFinite"}[w]
+			src := name + "(" + a.js + ")"
+			o := RunJS(g.vm, src)
+			obs, txt := "(-9)", "!"
+			if o.Panic == nil && o.Err == nil && o.Val.IsBoolean() {
+				b, _ := o.Val.ToBoolean()
+				obs, txt = "0", "false"
+				if b {
+					obs, txt = "1", "true"
+				}
+			}
+			g.env.Add(fmt.Sprintf("CIsNum %d [%s] %s", w, a.coq, obs), "isnum "+src+" -> "+txt, name, true)
+		}
+	}
+}
+
+// deterministic sweeps over every ASCII character, every %XX octet and the code point boundaries
+func (g *gen) strSweeps() {
+	for c := 0; c < 128; c++ {
+		u := []uint16{uint16(c)}
+		for _, ch := range [][]int{{0}, {1}, {4}} {
+			g.strCase(ch, u, "sweep:ascii", true)
+		}
+	}
+	for b := 0; b < 256; b++ {
+		up := Units(fmt.Sprintf("%%%02X", b))
+		lo := Units(fmt.Sprintf("%%%02x", b))
+		for _, f := range []int{2, 3, 5} {
+			g.strCase([]int{f}, up, "sweep:octet", true)
+			if b < 128 && string(utf16Str(lo)) != string(utf16Str(up)) {
+				g.strCase([]int{f}, lo, "sweep:octet", true)
+			}
+		}
+	}
+	bounds := []int{0x7F, 0x80, 0xBF, 0xC0, 0xFF, 0x100, 0x7FF, 0x800, 0xFFF, 0x1000, 0xCFFF, 0xD000, 0xD7FF, 0xE000, 0xFFFD, 0xFFFF, 0x10000, 0x3FFFF, 0x40000, 0xFFFFF, 0x100000, 0x10FFFF}
+	for _, c := range bounds {
+		u := cpUnits(c)
+		for _, ch := range [][]int{{0}, {1}, {4}, {0, 2}, {1, 3}, {4, 5}} {
+			g.strCase(ch, u, "sweep:bounds", true)
+		}
+		// the UTF-8 octets of the code point as escapes, and with the last octet damaged
+		bs := []byte(string(rune(c)))
+		g.strCase([]int{3}, pctBytes(bs, false), "sweep:bounds", true)
+		g.strCase([]int{2}, pctBytes(bs, true), "sweep:bounds", true)
+		bad := append([]byte{}, bs...)
+		bad[len(bad)-1] ^= 0x40
+		g.strCase([]int{3}, pctBytes(bad, false), "sweep:bounds", true)
+		g.strCase([]int{3}, pctBytes(bs[:len(bs)-1], false), "sweep:bounds", true)
+		g.strCase([]int{3}, append(pctBytes(bs, false), pctBytes([]byte{0x80}, false)...), "sweep:bounds", true)
+	}
+	for _, v := range []int{0, 0x41, 0x7F, 0x80, 0xFF, 0x100, 0xABCD, 0xD7FF, 0xD800, 0xDBFF, 0xDC00, 0xDFFF, 0xE000, 0xFFFF} {
+		g.strCase([]int{5}, Units(fmt.Sprintf("%%u%04X", v)), "sweep:pctu", true)
+		g.strCase([]int{5}, Units(fmt.Sprintf("%%u%04x", v)), "sweep:pctu", true)
+		g.strCase([]int{5}, Units(fmt.Sprintf("a%%u%04Xb", v)), "sweep:pctu", true)
+		g.strCase([]int{5}, Units(fmt.Sprintf("%%u%04X", v))[:5], "sweep:pctu", true)
+	}
+	for _, t := range []string{"%", "%%", "a%", "%4", "%41", "a%41", "%41%", "%u", "%u0", "%u00", "%u004", "%u0041", "%u00411", "%%41", "%%u0041", "%u%41", "%4%41", "%zz%41", "+", "a+b", "%2B", "%2b", "%20", "a b", "%25", "%2541", "%25%34%31"} {
+		for _, f := range []int{2, 3, 5} {
+			g.strCase([]int{f}, Units(t), "sweep:edge", true)
+		}
+	}
+}
+
+func utf16Str(u []uint16) []byte {
+	b := make([]byte, len(u))
+	for i, c := range u {
+		b[i] = byte(c)
+	}
+	return b
+}
+
 func runC13(env *Env) {
 	env.Import = "Otto.C13.Corr"
 	env.Rule = "Math: every function over a pool of IEEE specials (NaN, +-0, +-Infinity, +-1, +-0.5 and neighbours, 2^52..2^53 integers, half-integers, subnormals, extremes), their neighbours and random bit patterns, with 0..6 arguments, also as strings/booleans/null/undefined/objects; pow and atan2 table cells and exact rational powers; valueOf call logs; inverse/identity relations, anchors, monotone pairs; isNaN/isFinite over a ToNumber pool; strings over ASCII (reserved, marks, %), 2/3-byte boundaries, BMP, astral and lone surrogates through chains of encode/decode/escape/unescape; decode/unescape on percent-encodings with ill-formed octet sequences and 1-2 random mutations. non-trivial = distinct case with a special/neighbour argument, an unusual argument count, or a string containing a non-ASCII unit or '%'"
 	g := &gen{env: env, vm: otto.New(), r: env.Rng}
 	r := env.Rng
 	g.pinned()
+	g.sweeps()
+	g.strSweeps()
 	for env.Count() < env.N {
 		switch k := r.Intn(100); {
 		case k < 14: // unary Math
